@@ -220,6 +220,13 @@ def finish(ctx: Ctx, level: str, explanation: str, checker_cmd: str) -> int:
     known_hits: dict[str, dict] = {}
     undecided: list[str] = []
 
+    locked = set()
+    if os.path.exists(LOCK):
+        try:
+            with open(LOCK) as f:
+                locked = set(json.load(f).get(ctx.pid, []))
+        except Exception:
+            locked = set()
     # proof side
     n_ob = 0
     n_dis = 0
@@ -258,7 +265,14 @@ def finish(ctx: Ctx, level: str, explanation: str, checker_cmd: str) -> int:
                     }
                 )
         elif o.status == UNDECIDED:
-            undecided.append(o.name)
+            if o.name in locked:
+                # proved on the unchanged tree (obligations.lock.json), not provable now: reported as a violation of the
+                # named obligation with the solver's output; no failing input was found
+                violations.append({"kind": "obligation", "obligation": o.name, "function": o.function, "formula": o.formula,
+                                   "solver_output": o.detail or "solver: unknown / timeout", "model": None, "replayed_input": False,
+                                   "note": "obligation recorded as discharged in obligations.lock.json is no longer discharged"})
+            else:
+                undecided.append(o.name)
         else:
             ctx.fail_checker(f"obligation {o.name}: engine error: {o.detail[:300]}")
 
@@ -376,6 +390,9 @@ def finish(ctx: Ctx, level: str, explanation: str, checker_cmd: str) -> int:
         "wall_s": round(wall, 2),
         "violations": len(violations),
     }
+    os.makedirs(os.path.join(OUT, "obligations"), exist_ok=True)
+    with open(os.path.join(OUT, "obligations", f"{ctx.pid}.json"), "w") as f:
+        json.dump(sorted(o.name for o in ctx.obligations if o.status == DISCHARGED and o.kind not in ("canary", "cover", "consistency")), f)
     os.makedirs(EVIDENCE_DIR, exist_ok=True)
     with open(os.path.join(EVIDENCE_DIR, f"{ctx.pid}.json"), "w") as f:
         json.dump(jsonable(ev), f, indent=1)
